@@ -116,11 +116,11 @@ func mcParent(src int, shape []int) []mcBatch {
 func RunMC(r *rt.Run) error {
 	t := r.NewTrace("mc")
 	tm := rt.DefaultTime
-	shapes2 := [][]int{{1}, {2}, {0, 1}, {1, 1}, {}}
+	shapes2 := [][]int{{1}, {2}, {0, 1}, {}}
 	shapes3 := [][]int{{1}, {0}, {}}
 	if r.Thorough() {
-		shapes2 = [][]int{{1}, {2}, {0, 1}, {1, 1}, {2, 1}, {1, 0, 1}, {}}
-		shapes3 = [][]int{{1}, {2}, {0, 1}, {}}
+		shapes2 = [][]int{{1}, {2}, {0, 1}, {1, 1}, {2, 1}, {}}
+		shapes3 = [][]int{{1}, {0}, {2}, {}}
 	}
 	runOne := func(ps [][]mcBatch, order []Step) {
 		tags := models.Tags{"g": "x"}
@@ -183,6 +183,13 @@ func RunMC(r *rt.Run) error {
 			ps := make([][]mcBatch, np)
 			for s := range ps {
 				ps[s] = mcParent(s, shapes[pick[s]])
+			}
+			total := 0
+			for _, x := range msgLens(ps) {
+				total += x
+			}
+			if np == 3 && total > 10 {
+				return // > 4200 orders each: left to the model
 			}
 			for _, order := range interleavings(msgLens(ps)) {
 				runOne(ps, order)
